@@ -82,6 +82,24 @@ PROPS = {
         ]),
 }
 
+# Obligations that are SUFFICIENT for a property but not NECESSARY ("the optimizer does nothing else", "the fold function
+# of this operator is the one called"), or that are proved only relative to a purity stub of the callee: when one of
+# them stops being provable and no failing input can be found, the run prints a SUSPECT line and does not alarm
+# (an equivalent-but-different optimisation or a refactoring that relies on the callee's behaviour would otherwise be a
+# false alarm). They are still counted as obligations, and a failing probe / K counterexample still alarms.
+import re as _re
+ADVISORY_RE = _re.compile(
+    r"(\.fold\.non_constant_rebuilt|\.recreate\.non_constant_rebuilt|rebuilt_in_place|rebuilt_same_operator"
+    r"|ifelse\.recreate\.non_constant_keeps_both_branches|loop\.recreate\.|block\.recreate\.statements_recreated"
+    r"|set\.recreate\.|setifelse\.recreate\.|binop\.recreate\.dispatch_|unop\.recreate\.dispatch_"
+    r"|\.fold\.constants_equal_exec|with_exec\.constants_folded_by_exec|iws\.recreate\.delegates"
+    r"|arrayrepeat\.fold\.constants_equal_exec)")
+
+
+def is_advisory(oid):
+    return bool(ADVISORY_RE.search(oid))
+
+
 _ARITH = {"add": "+", "subtract": "-", "multiply": "*", "divide": "/", "modulo": "%", "pow": "**", "lshift": "<<",
           "rshift": ">>"}
 
